@@ -36,6 +36,10 @@ func ParseVolume(spec string) (types.ServiceVolumeConfig, error) {
 	case 0:
 		return volume, errors.New("invalid empty volume spec")
 	case 1, 2:
+		if spec[0] == ':' || (len(spec) == 2 && spec[1] == ':' && !unicode.IsLetter(rune(spec[0]))) {
+			// ":", "::", ":/" or "/:" have an empty section, they are not a short target such as "c:"
+			return volume, fmt.Errorf("invalid spec: %s: empty section between colons", spec)
+		}
 		volume.Target = spec
 		volume.Type = types.VolumeTypeVolume
 		return volume, nil
